@@ -98,7 +98,7 @@ def _check(ctx: Ctx) -> None:
                           file=fi.file, node=node)
         else:
             ctx.undetermined("GRID", inst, f"kind {k}: provenance not recognised, not judged")
-    ctx.floor("time writes in quantise judged (proven on-grid or proven off-grid)", n_grid + n_bad, 3)
+    ctx.floor("time writes in quantise judged (proven on-grid or proven off-grid)", n_grid + n_bad, 2)      # note-off write + at least one write shared by the other kinds
 
     # --- NEAR: the candidates are the grid position at or below the event and the next one above, per step size
     near_rule(ctx, fi)
@@ -190,7 +190,7 @@ def compare_rules(ctx: Ctx, fi) -> None:
     # POS: inside the note-off branch, `valid.append(position)` under a test on position - start
     pos_sites = []
     for n in ast.walk(loop):
-        if isinstance(n, ast.For) and isinstance(n.target, ast.Name):
+        if isinstance(n, ast.For) and isinstance(n.target, ast.Name) and n is not loop:          # (the message loop itself appends messages, not candidates)
             for c in ast.walk(n):
                 if isinstance(c, ast.Call) and call_method(c)[1] == "append" and c.args and isinstance(c.args[0], ast.Name) and c.args[0].id == n.target.id:
                     g = next((a for a in ancestors(c) if isinstance(a, ast.If)), None)
